@@ -152,6 +152,11 @@ struct Shared {
     host_rereg: Cell<u32>,
     host_registered: Cell<bool>,
     parent_protocol_broken: Cell<bool>,
+    /// change to perform at the end of the very process_events call in which the child fired
+    ctl_same: Cell<Option<Change>>,
+    child_fired: Cell<bool>,
+    /// the parent answers Disable itself in the call in which the child fired
+    host_disable: Cell<bool>,
     /// factory for replacement children (filled by the context before the change)
     next_child: RefCell<Option<Child>>,
 }
@@ -172,9 +177,21 @@ impl EventSource for Host {
     where
         F: FnMut(usize, &mut ()) -> PostAction,
     {
+        self.sh.child_fired.set(false);
         let r = self.ts.process_events(readiness, token, callback)?;
         self.sh.wrapper_returns.borrow_mut().push(r);
         let mut out = r;
+        if self.sh.child_fired.get() {
+            // a change made in the same call in which the child fired (before any re-registration)
+            if let Some(ch) = self.sh.ctl_same.take() {
+                apply_change(&mut self.ts, ch, &self.sh);
+                out = PostAction::Reregister;
+            }
+            if self.sh.host_disable.take() {
+                // the parent disables itself: the loop calls unregister() instead of reregister()
+                return Ok(PostAction::Disable);
+            }
+        }
         let mut fired = false;
         self.ctl.process_events(readiness, token, |(), _| fired = true)?;
         if fired {
@@ -244,6 +261,8 @@ fn apply_change(ts: &mut TransientSource<Child>, ch: Change, sh: &Shared) {
 #[derive(Clone, Copy, Debug, PartialEq, Eq, Hash)]
 enum TOp {
     Dispatch,
+    /// child event + a change at the end of the same process_events call
+    SameCall(Change),
     ChildEvent,
     OldChildEvent,
     InPe(Change),
@@ -267,6 +286,10 @@ struct MChild {
 
 struct Ctx {
     h: LoopHandle<'static, Ctx>,
+    sh: Rc<Shared>,
+    /// the parent answered Disable in this dispatch
+    host_self_disabled: bool,
+    allow_host_disable: bool,
     children: Vec<MChild>,
     tracks: Vec<Rc<Track>>,
     pings: Vec<Option<Ping>>,
@@ -331,6 +354,7 @@ impl Ctx {
             self.violate("child-event-without-cause", &[], format!("child {id} fired without a ping"));
         }
         self.children[id].pinged = false;
+        self.sh.child_fired.set(true);
         let c = explore::choose(4, Kind::Dev);
         let ret = [PostAction::Continue, PostAction::Reregister, PostAction::Disable, PostAction::Remove][c as usize];
         if c != 0 {
@@ -348,6 +372,16 @@ impl Ctx {
             }
             _ => {}
         }
+        // the parent may answer Disable itself in this very call (the loop then calls its
+        // unregister() with the child's request still pending)
+        // (never together with a change made in the same call: the documented protocol wants
+        // Reregister to be returned after a change)
+        if self.allow_host_disable && self.sh.ctl_same.get().is_none() && explore::choose(2, Kind::Dev) == 1 {
+            self.deviated = true;
+            self.decoded.push("  parent returns Disable".to_string());
+            self.sh.host_disable.set(true);
+            self.host_self_disabled = true;
+        }
         ret
     }
 }
@@ -357,8 +391,25 @@ fn run_one(quick: bool, verbose: bool) -> Outcome {
     let mut out = Outcome::default();
     let mut el: EventLoop<'static, Ctx> = EventLoop::try_new().expect("loop");
     let epfd = std::os::fd::AsRawFd::as_raw_fd(&el);
+    let sh = Rc::new(Shared {
+        ctl: Cell::new(None),
+        wrapper_returns: RefCell::new(vec![]),
+        map_hits: Cell::new(0),
+        host_reg: Cell::new(0),
+        host_unreg: Cell::new(0),
+        host_rereg: Cell::new(0),
+        host_registered: Cell::new(false),
+        parent_protocol_broken: Cell::new(false),
+        ctl_same: Cell::new(None),
+        child_fired: Cell::new(false),
+        host_disable: Cell::new(false),
+        next_child: RefCell::new(None),
+    });
     let mut ctx = Ctx {
         h: el.handle(),
+        sh: sh.clone(),
+        host_self_disabled: false,
+        allow_host_disable: true,
         children: vec![],
         tracks: vec![],
         pings: vec![],
@@ -371,17 +422,6 @@ fn run_one(quick: bool, verbose: bool) -> Outcome {
     };
     // start: From<T> with a ping child, From<T> with a timer child, or Default (empty)
     let start = explore::choose(3, Kind::Free);
-    let sh = Rc::new(Shared {
-        ctl: Cell::new(None),
-        wrapper_returns: RefCell::new(vec![]),
-        map_hits: Cell::new(0),
-        host_reg: Cell::new(0),
-        host_unreg: Cell::new(0),
-        host_rereg: Cell::new(0),
-        host_registered: Cell::new(false),
-        parent_protocol_broken: Cell::new(false),
-        next_child: RefCell::new(None),
-    });
     let ts: TransientSource<Child> = match start {
         0 => {
             let c = ctx.new_child(false);
@@ -432,6 +472,10 @@ fn run_one(quick: bool, verbose: bool) -> Outcome {
                 ctx.violate("child-dropped-twice", &[], format!("{when}: child {i} dropped {} times", tr.src_dropped.get()));
             }
             let want = c.current && !c.self_disabled && host_alive && host_enabled;
+            if !(host_alive && host_enabled) && tr.registered.get() && tr.src_dropped.get() == 0 && !sh.parent_protocol_broken.get() {
+                ctx.violate("child-registered-under-unregistered-parent", &[], format!("{when}: the parent is not registered but child {i} still is"));
+                continue;
+            }
             if c.self_disabled && c.current {
                 // the statement does not say whether a later parent register() re-registers a child
                 // that disabled itself: follow the implementation
@@ -476,6 +520,11 @@ fn run_one(quick: bool, verbose: bool) -> Outcome {
             for ch in changes {
                 if host_enabled && sh.ctl.get().is_none() {
                     menu.push(TOp::InPe(ch));
+                    if let Some(c) = cur {
+                        if !ctx.children[c].timer && !ctx.children[c].pinged && !ctx.children[c].self_disabled && ch != Change::Map {
+                            menu.push(TOp::SameCall(ch));
+                        }
+                    }
                 }
                 if host_enabled {
                     menu.push(TOp::Outside(ch));
@@ -528,6 +577,32 @@ fn run_one(quick: bool, verbose: bool) -> Outcome {
                     ctx.violate("dispatch-error", &[], format!("dispatch failed: {e}"));
                 }
             }
+            TOp::SameCall(ch) => {
+                let c = ctx.current().unwrap();
+                let mut newc = None;
+                if let Change::Replace(t) = ch {
+                    let nc = ctx.new_child(t);
+                    newc = Some(nc.id);
+                    *sh.next_child.borrow_mut() = Some(nc);
+                }
+                sh.ctl_same.set(Some(ch));
+                ctx.pings[c].as_ref().unwrap().ping();
+                ctx.children[c].pinged = true;
+                let r = el.dispatch(Some(Duration::ZERO), &mut ctx);
+                if let Err(e) = r {
+                    errors_seen += 1;
+                    ctx.violate("dispatch-error", &[], format!("dispatch failed: {e}"));
+                }
+                // the wrapper still held the child when the change was made (even if the child had
+                // just asked to be removed): the change applies to it
+                sh.ctl_same.set(None);
+                ctx.children[c].current = false;
+                ctx.children[c].gone = true;
+                if let Some(n) = newc {
+                    ctx.children[n].current = true;
+                }
+                clauses.push("change-in-same-call");
+            }
             TOp::ChildEvent => {
                 let c = ctx.current().unwrap();
                 ctx.pings[c].as_ref().unwrap().ping();
@@ -554,8 +629,19 @@ fn run_one(quick: bool, verbose: bool) -> Outcome {
                     errors_seen += 1;
                     ctx.violate("dispatch-error", &[], format!("dispatch failed: {e}"));
                 }
-                model_change(&mut ctx, ch, newc);
-                clauses.push("change-in-process-events");
+                if sh.ctl.get().is_some() {
+                    // the control event was not processed (the parent disabled itself earlier in
+                    // this batch): the change did not happen
+                    sh.ctl.set(None);
+                    if sh.next_child.borrow_mut().take().is_some() {
+                        if let Some(n) = newc {
+                            ctx.children[n].gone = true;
+                        }
+                    }
+                } else {
+                    model_change(&mut ctx, ch, newc);
+                    clauses.push("change-in-process-events");
+                }
             }
             TOp::Outside(ch) => {
                 let mut newc = None;
@@ -612,6 +698,11 @@ fn run_one(quick: bool, verbose: bool) -> Outcome {
                 host_alive = false;
                 host_enabled = false;
             }
+        }
+        if ctx.host_self_disabled {
+            ctx.host_self_disabled = false;
+            host_enabled = false;
+            clauses.push("parent-disables-itself");
         }
         check(&mut ctx, host_alive, host_enabled, &format!("after {op:?}"), &sh);
         // kernel view: the control ping plus the current registered ping child
